@@ -116,6 +116,19 @@ def n_alts(match):
     return sum(len(pat_alts(a["pat"])) for a in match["arms"])
 
 
+def matches_on_type(crate, hir, type_suffix, min_alts=1):
+    """The `match` expressions whose scrutinee has a type ending in type_suffix (references stripped), in source order:
+    the way to find "the match over the token kind" without knowing what the local is called."""
+    out = []
+    for m in matches(hir):
+        sc = unwrap_trivial(m["scrut"])
+        t = sc.get("t")
+        ty = str(crate.ty(t) if isinstance(t, int) else "").replace("&", "").replace("mut ", "").strip()
+        if ty.endswith(type_suffix) and n_alts(m) >= min_alts:
+            out.append(m)
+    return out
+
+
 def strip_ref(pat):
     while pat.get("k") in ("Ref", "Box", "Deref"):
         pat = pat["p"]
